@@ -6,12 +6,12 @@ ROOT = os.path.dirname(os.path.dirname(os.path.abspath(__file__)))
 CLAIMED = {
  "C01": dict(
    technique="reference-model monitor over exhaustive operand enumeration (runtime execution of build_str, independent encoder+decoder oracle, llvm-mc cross-check of the oracle)",
-   text="Runs the real assembler on every ISA-legal operand tuple of every supported instruction form (complete one-word space and reduced-core lds/sts in quick; additionally the complete 2^22 jmp/call and 32x2^16 lds/sts spaces in thorough) and compares the emitted bytes with an independently transcribed ISA encoder and a hand-coded decoder; plus slices that vary what surrounds the instruction: high addresses (behind .org 0x12345), operands arriving through .def aliases, .equ/.set symbols and macro arguments, and 3000 single-line builds on one thread alternating between the reduced core and no device. The oracle itself is cross-checked against LLVM's AVR assembler. A slice of tuples per form is also assembled behind `.org 0x12345`, through `.def` aliases / `.equ`,`.set` symbols / macro arguments (every other round with the definitions that count written inside .dseg/.eseg, replacing stale ones), and as interleaved single-line builds on one thread alternating reduced core and no device.",
+   text="Runs the real assembler on every ISA-legal operand tuple of every supported instruction form (complete one-word space and reduced-core lds/sts in quick; additionally the complete 2^22 jmp/call and 32x2^16 lds/sts spaces in thorough) and compares the emitted bytes with an independently transcribed ISA encoder and a hand-coded decoder; plus slices that vary what surrounds the instruction: high addresses (behind .org 0x12345), operands arriving through .def aliases, .equ/.set symbols and macro arguments, and 3000 single-line builds on one thread alternating between the reduced core and no device. The oracle itself is cross-checked against LLVM's AVR assembler. A slice of tuples per form is also assembled behind `.org 0x12345`, through `.def` aliases / `.equ`,`.set` symbols / macro arguments (every other round with the definitions that count written inside .dseg/.eseg, replacing stale ones), and as interleaved single-line builds on one thread alternating reduced core and no device. Letter-case twins: per form and letter two lines that differ only in the case of mnemonic/registers and of a character-literal operand, in one build and in builds that follow each other on one thread.",
    note="Trusted base: refmodel/isa.rs (manual transcription; decode∘encode self-check; llvm-mc-14 agreement except the reduced-core lds/sts form, which LLVM 14 lacks, and pc-relative fields, which LLVM leaves to fixups). Relative operands are written pc±k; label targets are C03.",
    design="§6 C01"),
  "C03": dict(
    technique="reference-layout monitor over enumerated displacements (runtime execution, independent decoder oracle)",
-   text="Builds programs that put each of the 18 br<cond>, brbs/brbc x 8 flags, rjmp and rcall at every displacement across and beyond both range limits (forward/backward; label, label±k, pc±k targets; random mixes of one/two-word instructions, data and .org gaps in between), at far displacements around ±2^k (pc-relative and labels placed with .org) and inside one-line macro bodies expanded several times back to back; requires: build Ok iff the displacement fits, the emitted word decodes to exactly that displacement, the whole image equals the reference layout. Every form is also placed inside one-line macro bodies expanded several times, and with the target as a macro parameter (pc-relative text at both limits and one beyond, labels; 0-2 instructions in front of the branch inside the body; macro defined and called inside taken branches).",
+   text="Builds programs that put each of the 18 br<cond>, brbs/brbc x 8 flags, rjmp and rcall at every displacement across and beyond both range limits (forward/backward; label, label±k, pc±k targets; random mixes of one/two-word instructions, data and .org gaps in between), at far displacements around ±2^k (pc-relative and labels placed with .org) and inside one-line macro bodies expanded several times back to back; requires: build Ok iff the displacement fits, the emitted word decodes to exactly that displacement, the whole image equals the reference layout. Every form is also placed inside one-line macro bodies expanded several times, and with the target as a macro parameter (pc-relative text at both limits and one beyond, labels; 0-2 instructions in front of the branch inside the body; macro defined and called inside taken branches). A third filler mix builds under `.device ATtiny20` with the one-word lds/sts of the reduced core between branch and target.",
    note="Trusted base: refmodel/isa.rs encodings of filler items and decoder. Windows: branches -80..80; rjmp/rcall around ±2048 and 0 (quick) or -2100..2100 (thorough).",
    design="§6 C03"),
  "C04": dict(
@@ -26,12 +26,12 @@ CLAIMED = {
    design="§6 C12"),
  "C13": dict(
    technique="complete device x instruction-form enumeration monitor (runtime execution, flag→form oracle + reference encoder)",
-   text="Every device of the table x every instruction form x lowest/highest legal operands (thorough + 256 random tuples): a form forbidden by a feature flag of the device must fail; every other form must assemble to the no-device reference encoding (one-word lds/sts on reduced cores); plus whole programs per device (allowed instructions only must build to the concatenated encodings; each forbidden form placed after allowed instructions incl. allowed forms of the same mnemonic must fail). Complete for the stated grid. Whole programs per device put every forbidden form behind allowed instructions (also of the same mnemonic) with inert lines in between, and behind every kind of inert line (.csegsize, #pragma, unused definitions, unselected .device, other segments with content) right after .device.",
+   text="Every device of the table x every instruction form x lowest/highest legal operands (thorough + 256 random tuples): a form forbidden by a feature flag of the device must fail; every other form must assemble to the no-device reference encoding (one-word lds/sts on reduced cores); plus whole programs per device (allowed instructions only must build to the concatenated encodings; each forbidden form placed after allowed instructions incl. allowed forms of the same mnemonic must fail). Complete for the stated grid. Whole programs per device put every forbidden form behind allowed instructions (also of the same mnemonic) with inert lines in between, and behind every kind of inert line (.csegsize, #pragma, unused definitions, unselected .device, other segments with content) right after .device. The second `.device` line of the must-fail programs also sits in an included file.",
    note="Flag→forms map transcribed from the DisabledOptions doc comments; flags are read from the DEVICES table at run time, as the statement prescribes.",
    design="§6 C13"),
  "C05": dict(
    technique="reference-evaluator monitor over generated and enumerated expressions (runtime execution, i128 oracle, observation through emitted .dq bytes)",
-   text="Evaluates expressions on the real assembler through `.dq <expr>` - written directly and as the argument of a macro - and compares with an i128 reference evaluator: random trees over all 18 binary / 3 unary operators, 8 functions, literals in every spelling, .equ/.set/label/pc symbols, rendered with only the parentheses the documented precedence table requires; the complete operator x boundary-operand grid; every ordered operator pair in both association shapes. Failing cases are shrunk to the smallest failing sub-expression on the real code. Every operator pair and a quarter of the random trees are also passed as macro arguments: plain, handed on to a second macro, as operand of a larger expression (2 * @0) and both at once on the line of a nested call. Symbol names include ones that begin like registers, pointer registers, functions and pc.",
+   text="Evaluates expressions on the real assembler through `.dq <expr>` - written directly and as the argument of a macro - and compares with an i128 reference evaluator: random trees over all 18 binary / 3 unary operators, 8 functions, literals in every spelling, .equ/.set/label/pc symbols, rendered with only the parentheses the documented precedence table requires; the complete operator x boundary-operand grid; every ordered operator pair in both association shapes. Failing cases are shrunk to the smallest failing sub-expression on the real code. Every operator pair and a quarter of the random trees are also passed as macro arguments: plain, handed on to a second macro, as operand of a larger expression (2 * @0) and both at once on the line of a nested call. Symbol names include ones that begin like registers, pointer registers, functions and pc. Twelve symbol expressions per run are evaluated first thing in a build that directly follows, on the same thread, a build that defined the same names with other values and ran out of the build-wide evaluation budget.",
    note="Trusted base: refmodel/expr.rs. Tolerated where the statement is silent: `<<`/exp2 leaving i64 or counts >= 64 may fail or give the low 64 bits; `>>` of negatives arithmetic or logical; i64::MIN % -1 may fail or be 0.",
    design="§6 C05"),
  "C07": dict(
@@ -41,42 +41,42 @@ CLAIMED = {
    design="§6 C07"),
  "C02": dict(
    technique="reference-layout monitor over generated programs + hook-trace checker (runtime execution of build_str, pass-1/pass-2 event log)",
-   text="Random layout programs (interleaved .cseg/.dseg/.eseg, both instruction lengths, odd/even .db, word data, .byte, own-line/inline labels, forward .org, devices with different RAM starts and the reduced core) are assembled by the real tool; both images, RAM extent and sizes must equal an independent IR-level reference layout (labels are exposed through `.dd label` tables), and the hook trace must show every pass-1 size equal to the pass-2 emission and every label event equal to the reference value. 1 in 12 programs carries a backward .org that must fail. A third of the .org lines are followed by an excursion to another segment before the first item arrives; every second valid program is rebuilt with runs of its lines moved into argument-less macros.",
+   text="Random layout programs (interleaved .cseg/.dseg/.eseg, both instruction lengths, odd/even .db, word data, .byte, own-line/inline labels, forward .org, devices with different RAM starts and the reduced core) are assembled by the real tool; both images, RAM extent and sizes must equal an independent IR-level reference layout (labels are exposed through `.dd label` tables), and the hook trace must show every pass-1 size equal to the pass-2 emission and every label event equal to the reference value. 1 in 12 programs carries a backward .org that must fail. A third of the .org lines are followed by an excursion to another segment before the first item arrives; every second valid program is rebuilt with runs of its lines moved into argument-less macros. `.byte` with a size that is not a plain number between two labels, nine spellings in .eseg and .dseg: laid out, refused, nothing reserved (the listed finding), or labels and bytes disagreeing (another signature).",
    note="Trusted base: refmodel/layout.rs + isa.rs; device figures from DEVICES. Every second valid program is also rebuilt with runs of its lines moved into argument-less macros. Two open known findings (`.org 0` after code, `.byte <non-literal>`), see KNOWN_FINDINGS.txt.",
    design="§6 C02"),
  "C06": dict(
    technique="reference-model monitor over generated data programs + boundary grid (runtime execution, byte-exact oracle, hook-trace checker)",
-   text="Programs of .db/.dw/.dd/.dq lines in flash and EEPROM with 0-12 operands mixing boundary literals, computed values, symbols, random expressions and strings (empty, comment look-alikes, non-ASCII), `.byte n` between EEPROM data, and single faults (value that does not fit, string in a word directive, data in .dseg) must produce exactly the reference bytes or fail; plus the complete width x boundary-value grid in both segments. Every second valid program is rebuilt with runs of lines moved into macros.",
+   text="Programs of .db/.dw/.dd/.dq lines in flash and EEPROM with 0-12 operands mixing boundary literals, computed values, symbols, random expressions and strings (empty, comment look-alikes, non-ASCII), `.byte n` between EEPROM data, and single faults (value that does not fit, string in a word directive, data in .dseg) must produce exactly the reference bytes or fail; plus the complete width x boundary-value grid in both segments. Every second valid program is rebuilt with runs of lines moved into macros. Sibling data lines: equal up to a `;` `//` `:` `,` `@0` ... inside a literal, or but for letter case / blanks inside a literal, in one build and in builds that follow each other.",
    note="Trusted base: refmodel/layout.rs data rules; fits = signed or unsigned representation of the element width.",
    design="§6 C06"),
  "C08": dict(
    technique="metamorphic + reference monitor over enumerated truth assignments and random nested chains, with a hook-trace checker of lines reaching the assembling path",
-   text="For all truth assignments of all chain shapes up to 3 arms (thorough 5), nested and with hostile unselected content, and for random chains nested up to 4 deep: build(full) must equal build(program with unselected and conditional lines blanked) and the reference image/messages; the LINE hook trace must contain every selected line and no line of an unselected branch. Chains hosted in macro bodies that test #define flags set by the expansions themselves are compared with the program in which every call is replaced by its body. Also: chains hosted in macro bodies that test flags the expansions set; macros with an optional last parameter (unselected branches name parameters the call does not pass); malformed nested blocks inside unselected branches; every program once more with labels in front of its conditional directives.",
+   text="For all truth assignments of all chain shapes up to 3 arms (thorough 5), nested and with hostile unselected content, and for random chains nested up to 4 deep: build(full) must equal build(program with unselected and conditional lines blanked) and the reference image/messages; the LINE hook trace must contain every selected line and no line of an unselected branch. Chains hosted in macro bodies that test #define flags set by the expansions themselves are compared with the program in which every call is replaced by its body. Also: chains hosted in macro bodies that test flags the expansions set; macros with an optional last parameter (unselected branches name parameters the call does not pass); malformed nested blocks inside unselected branches; every program once more with labels in front of its conditional directives. 260 and 70000 (thorough up to 140000) complete chains of twelve shapes in a row, also inside a macro body.",
    note="Trusted base: refmodel/layout.rs conditional semantics and the IR printer (one line per primitive node). Unselected branches contain .error, clobbering definitions, duplicate labels, garbage, unterminated .macro, missing .include, other .device.",
    design="§6 C08"),
  "C09": dict(
    technique="metamorphic monitor: macro program vs IR-level hand expansion vs reference image (runtime execution of build_str)",
-   text="Random programs with 1-4 macro definitions (0-10 parameters; register, index, displacement and expression parameters; parameters inside larger expressions; .if on a parameter; nested calls; segment switches incl. as the last line of a body; emit-once blocks and #define flags shared between macros; mixed-case names) and 1-6 calls in any letter case (also repeated verbatim), before or after the definition, must build to exactly what the hand-expanded program (expanded on the IR, arguments substituted as values) builds to and to the reference image; calls of undefined macros or with an omitted used argument must fail; fixed probes cover the argument shapes the statement names. Plus 'placing bodies' (.org as first/middle/last body line in all three segments, nested, the caller going on behind the call with labels referenced across calls, calls written under .dseg/.eseg) compared with the program written out.",
+   text="Random programs with 1-4 macro definitions (0-10 parameters; register, index, displacement and expression parameters; parameters inside larger expressions; .if on a parameter; nested calls; segment switches incl. as the last line of a body; emit-once blocks and #define flags shared between macros; mixed-case names) and 1-6 calls in any letter case (also repeated verbatim), before or after the definition, must build to exactly what the hand-expanded program (expanded on the IR, arguments substituted as values) builds to and to the reference image; calls of undefined macros or with an omitted used argument must fail; fixed probes cover the argument shapes the statement names. Plus 'placing bodies' (.org as first/middle/last body line in all three segments, nested, the caller going on behind the call with labels referenced across calls, calls written under .dseg/.eseg) compared with the program written out. 66000 and 140000 (thorough up to 1050000) calls in one source in five shapes against the lines written out.",
    note="Trusted base: refmodel/layout.rs::expand_macros + IR printer. A parameter used inside a larger expression is only called with atomic/parenthesised/function-call arguments; labels and messages inside bodies are not generated; macros that set or test #define flags are only called from the top level. Three open known findings macro/state/* (one root cause), see KNOWN_FINDINGS.txt.",
    design="§6 C09"),
  "C10": dict(
    technique="reference-resolution monitor + single-symbol mutation testing of generated programs (runtime execution; LOOKUP hook events as evidence)",
-   text="Valid programs defining and using labels (3 segments), .equ (chained, forward), .set (reassignment chains) and .def/.undef aliases in independently random letter case must build to the reference resolution; every program is mutated one symbol at a time — each referenced definition deleted, each label duplicated, each alias used after its .undef, undefined names in data/instruction/alias position (all must fail) — and every alias replaced by its register (identical image). Further mutants: every .equ defined a second time, every label also by .equ and every .equ also as a label (must fail); a live alias redefined on another register (refused or rebound, never the old register). Names include ones that begin like registers, functions and pc.",
+   text="Valid programs defining and using labels (3 segments), .equ (chained, forward), .set (reassignment chains) and .def/.undef aliases in independently random letter case must build to the reference resolution; every program is mutated one symbol at a time — each referenced definition deleted, each label duplicated, each alias used after its .undef, undefined names in data/instruction/alias position (all must fail) — and every alias replaced by its register (identical image). Further mutants: every .equ defined a second time, every label also by .equ and every .equ also as a label (must fail); a live alias redefined on another register (refused or rebound, never the old register). Names include ones that begin like registers, functions and pc. Undefined names in operands that cannot change the value (18 shapes x 5 contexts) must fail the build.",
    note="Trusted base: refmodel/layout.rs binding rules. A second .def of a live alias may be refused or rebind the alias; silently keeping the old register is a violation.",
    design="§6 C10"),
  "C11": dict(
    technique="metamorphic + reference monitor over generated file trees on disk (runtime execution of build_file; INCLUDE hook events as evidence)",
-   text="Generated programs are cut at item boundaries into trees of files (up to 5 deep) written to a scratch directory, each file placed by one documented search rule (absolute path, includer's directory, caller-supplied directory, earlier absolute or relative .includepath); build_file(tree) must equal build_str(flattened program) and the reference (images, sizes, RAM extent, messages with per-file line numbers); `.exit` tails with garbage must have no effect; removing one reachable file must fail with an error naming it. Include names are written as name, ./name, dir/name, ./dir/name, ../dir/name under every rule; further rules: path as written from the working directory, .includepath issued by a file included earlier, a directory bearing the file's name at the path as written; half of the trees hold a file included two or three times that guards parts of itself; after the missing-file build the file is put back and the tree rebuilt on the same thread.",
+   text="Generated programs are cut at item boundaries into trees of files (up to 5 deep) written to a scratch directory, each file placed by one documented search rule (absolute path, includer's directory, caller-supplied directory, earlier absolute or relative .includepath); build_file(tree) must equal build_str(flattened program) and the reference (images, sizes, RAM extent, messages with per-file line numbers); `.exit` tails with garbage must have no effect; removing one reachable file must fail with an error naming it. Include names are written as name, ./name, dir/name, ./dir/name, ../dir/name under every rule; further rules: path as written from the working directory, .includepath issued by a file included earlier, a directory bearing the file's name at the path as written; half of the trees hold a file included two or three times that guards parts of itself; after the missing-file build the file is put back and the tree rebuilt on the same thread. Files that list search directories are also reached through one or two files that only include the next one.",
    note="Unique file names per tree; the random splitter never cuts chains or macro definitions across files and puts no .include into macro bodies - those deviate on the pinned tree and are open known findings re-observed by fixed witness trees (KNOWN_FINDINGS.txt). Trusted base: refmodel/layout.rs include/.exit semantics.",
    design="§6 C11"),
  "C14": dict(
    technique="metamorphic monitor: canonical vs randomly respelled print of the same program IR (runtime execution of build_str)",
-   text="Programs from the layout, data, conditional, macro and symbol generators (valid and failing) are printed canonically and 8 (thorough 16) times with randomised meaning-free spelling (comments of all three kinds with hostile texts, blank/comment-only lines, LF/CRLF, letter case, literal radix, blanks and tabs around every token class incl. after unary operators and in displacements); images, sizes, RAM extent, Ok/Err status and messages (line numbers removed) must be identical. Comment texts include /*, */, @0, quotes, backslashes, non-ASCII, directive look-alikes and 600 operator characters; block comments are followed by blanks and further comments; base programs include macro bodies whose lines differ only in the letter case of a string or character literal; the repository's own tests/*.asm are respelled at text level.",
+   text="Programs from the layout, data, conditional, macro and symbol generators (valid and failing) are printed canonically and 8 (thorough 16) times with randomised meaning-free spelling (comments of all three kinds with hostile texts, blank/comment-only lines, LF/CRLF, letter case, literal radix, blanks and tabs around every token class incl. after unary operators and in displacements); images, sizes, RAM extent, Ok/Err status and messages (line numbers removed) must be identical. Comment texts include /*, */, @0, quotes, backslashes, non-ASCII, directive look-alikes and 600 operator characters; block comments are followed by blanks and further comments; base programs include macro bodies whose lines differ only in the letter case of a string or character literal; the repository's own tests/*.asm are respelled at text level. Meaningless lines in volume: 130 / 2000 comment-only, blank and whitespace-only lines inside a macro body called 34000 / 2200 times, 1.2 million between the lines of a program, 900000 in unassembled text.",
    note="Respelling is done by the IR printer, so strings, character literals and macro bodies are never damaged. Directive names, #define names, macro names, label definitions and indentation before a label are not respelled (not listed by the statement).",
    design="§6 C14"),
  "C15": dict(
    technique="fault-injection monitor over every line position x fault kind of generated valid programs (runtime execution of build_str, error-text oracle)",
-   text="Into valid base programs one faulty line of each of 24 kinds (incl. undefined names in operands that cannot change the value: 0 && x, 1 || x, 0 * x) is inserted at every position on the assembling path (top level and inside taken branches); the build must fail and the error text must contain the token `line: p`. Message placements (.message/.warning at top level and in taken/untaken branches) must leave the images unchanged and yield exactly the expected message list (text, line, order, kinds distinguishable); .error must fail wherever assembled. Every fault kind is repeated inside the body of a called macro behind blank and comment-only lines (the body line must be named), .message/.warning lines of bodies must carry their own line numbers, and an existing label is defined a second time behind every kind of segment boundary.",
+   text="Into valid base programs one faulty line of each of 24 kinds (incl. undefined names in operands that cannot change the value: 0 && x, 1 || x, 0 * x) is inserted at every position on the assembling path (top level and inside taken branches); the build must fail and the error text must contain the token `line: p`. Message placements (.message/.warning at top level and in taken/untaken branches) must leave the images unchanged and yield exactly the expected message list (text, line, order, kinds distinguishable); .error must fail wherever assembled. Every fault kind is repeated inside the body of a called macro behind blank and comment-only lines (the body line must be named), .message/.warning lines of bodies must carry their own line numbers, and an existing label is defined a second time behind every kind of segment boundary. Fault kind added in round 11: a line holding only a character the language gives no meaning to (NBSP, form feed, U+3000, ...), alone or in front of a comment.",
    note="Programs start with a comment so p >= 2 (PEG errors embed `line: 1`); for duplicate labels either defining line is accepted; a fault inside a macro body is attributed to the body line it is written on; the order of body messages relative to top-level ones is an open known finding (KNOWN_FINDINGS.txt).",
    design="§6 C15"),
  "C16": dict(
